@@ -51,7 +51,7 @@ type Cluster struct {
 	Log     []*Req
 	// FailMut[k]: reject the mutating request with index k (no effect on the store). FailSeq likewise by global sequence.
 	FailMut map[int]bool
-	FailCode  int               // HTTP status of injected faults: 0/500 InternalError, 403 Forbidden, 422 Invalid
+	FailCode  int               // HTTP status of injected faults: 0/500 InternalError, 403 Forbidden, 422 Invalid, 409 AlreadyExists (creates of non-Namespace kinds only, else 500)
 	// FailReq: a read request for which it returns true is rejected (evaluated in begin, store lock held)
 	FailReq func(r *Req) bool
 	InvLists int // number of LISTs so far (the harness only lists the inventory resource)
